@@ -32,6 +32,14 @@ class C17(PropCheck):
         plat = json.load(open(os.path.join(core.VERIF, "sites.json")))["platform"]
         codes = range(-70, 301) if tier == "quick" else range(-300, 1001)
         ops = ["ex %d %d %d %d" % (s, c, POISON_PID, POISON_UID) for s in range(1, 65) for c in codes]
+        # sender ids that are zero (root in an ancestor pid namespace, a record queued with 0/0): where the kernel
+        # fills the fields in, zeros are what it filled in and are reported as such
+        fillcodes = [plat[k] for k in ("SI_USER", "SI_TKILL", "SI_QUEUE", "SI_MESGQ")]
+        cld = [plat[k] for k in ("CLD_EXITED", "CLD_KILLED", "CLD_DUMPED", "CLD_TRAPPED", "CLD_STOPPED", "CLD_CONTINUED")]
+        for s in range(1, 65):
+            for c in fillcodes + (cld if s == plat["SIGCHLD"] else []) + [plat["SI_KERNEL"], plat.get("SI_TIMER", -2)]:
+                for (p0, u0) in ((0, 0), (0, POISON_UID), (POISON_PID, 0)):
+                    ops.append("ex %d %d %d %d" % (s, c, p0, u0))
         # extremes
         for s in (0, -1, 65, 128, 2147483647, -2147483648):
             for c in (0, 1, -1, -6, 128, 2147483647, -2147483648):
